@@ -219,6 +219,9 @@ impl Property for C03 {
         });
         Box::new(ex.chain(small).chain(hdr))
     }
+    fn fuzz_plans(&self) -> Vec<(&'static str, u64)> {
+        vec![("wire_raw", 30000), ("history", 6000)]
+    }
     fn gen(&self, c: &mut Choices) -> Case {
         match c.below(10) {
             0..=3 => Case::Hist(history::gen_history(c, None)),
